@@ -77,7 +77,13 @@ func replayPrune(c *core.Ctx, lfsBin string, b *behaviour, idx int) (*core.Viola
 				return nil, fmt.Errorf("setup push disagrees with the Push model (verdict %s, exit %d): %s", s.str("verdict"), r.Code, r.All())
 			}
 		case "stage":
-			if err := w.Stage(s.str("p"), s.str("oid")); err != nil {
+			// what happens to the working file after git add is a concretisation-only dimension
+			after := []string{"", "edited", "deleted"}[(b.hash/11)%3]
+			where := s.str("where")
+			if where == "" {
+				where = "main"
+			}
+			if err := w.StageIn(where, s.str("p"), s.str("oid"), after); err != nil {
 				return nil, err
 			}
 		case "stash":
